@@ -60,6 +60,7 @@ fn main() {
         "threads" => threads_cli::cli_threads(&args[2..]),
         "lockstep" => threads_cli::cli_lockstep(&args[2..]),
         "cli" => cli_cli::cli(&args[2..]),
+        "cli-one" => cli_cli::cli_one(&args[2..]),
         "giant" => giant::cli(&args[2..]),
         "gen-selftest" => genselftest::cli(&args[2..]),
         "images" => threads_cli::cli_images(&args[2..]),
